@@ -99,7 +99,8 @@ unsigned MessageBase::decode(const f8String& from, unsigned s_offset, unsigned i
 
 	for (unsigned result; s_offset <= fsize && (result = extract_element(dptr + s_offset, fsize - s_offset, tag, val));)
 	{
-		unsigned short tv(fast_atoi<unsigned short>(tag));
+		const unsigned long tagval(::strtoul(tag, nullptr, 10)); // saturates: a tag above 65535 must not wrap into a valid field number
+		unsigned short tv(tagval > 0xffff ? 0 : static_cast<unsigned short>(tagval));
 		Presence::const_iterator itr(_fp.get_presence().find(tv));
 		if (itr == _fp.get_presence().end())
 		{
@@ -146,7 +147,8 @@ unknown_field:
 				throw MissingMandatoryField("Unable to extract fixed width field");
 
 			const unsigned short lasttv(tv);
-			tv = fast_atoi<unsigned short>(tag);
+			const unsigned long datatagval(::strtoul(tag, nullptr, 10));
+			tv = datatagval > 0xffff ? 0 : static_cast<unsigned short>(datatagval);
 			if ((itr = _fp.get_presence().find(tv)) == _fp.get_presence().end())
 				goto unknown_field;
 			if (itr->_ftype != FieldTrait::ft_data || lasttv + 1 != tv) // next field must be data, tag must be 1 greater than length tag
@@ -185,7 +187,8 @@ unsigned MessageBase::decode_group(GroupBase *grpbase, const unsigned short fnum
 
 		for (unsigned pos(0); s_offset < fsize && (result = extract_element(dptr + s_offset, fsize - s_offset, tag, val));)
 		{
-			const unsigned tv(fast_atoi<unsigned>(tag));
+			const unsigned long tagval(::strtoul(tag, nullptr, 10)); // saturates: a tag above 65535 must not wrap into a valid field number
+			const unsigned short tv(tagval > 0xffff ? 0 : static_cast<unsigned short>(tagval));
 			Presence::const_iterator itr(grp->_fp.get_presence().end());
 			if (grp->_fp.get(tv, itr, FieldTrait::present))	// already present; next group?
 				break;
